@@ -285,6 +285,10 @@ def run(ctx):
             d = c05.describe(c)
             d.update({"variant": c.variant, "collisions": c.scn.collisions, "scenario_seed": c.seed})
             return d
+        if c05.std_copy_assertion(c):
+            # fault sequence outside the fault model: Rust std's kernel_copy asserts (see c05.std_copy_assertion)
+            ctx.bump("fault_sequence_outside_model", "std kernel_copy assertion")
+            continue
         for sig, text in cli_oracle(c):
             ctx.violation(sig, "C18 violated by the implementation: " + text, payload(), found_input=True)
         if c.extra.get("abstraction_error"):
